@@ -409,8 +409,12 @@ func raceRegist(withGet bool, withUnregist bool) func(x *vrt.Exec) {
 		if withGet {
 			vrt.GoNamed("getter", func() {
 				for k := 0; k < 2; k++ {
-					if s := media.Get("/r"); s != nil && s.VerifStatus() != media.StreamOK {
-						seenBad = fmt.Sprintf("Get returned a stream with status %d", s.VerifStatus())
+					// a lookup is judged at its linearisation point: closing is one-way, so the answer
+					// is wrong only if the returned stream was already closed when Get was called
+					// (a stream closed while Get is returning was open when Get decided)
+					closedBefore := map[*media.Stream]bool{a: a.VerifStatus() != media.StreamOK, b: b.VerifStatus() != media.StreamOK}
+					if s := media.Get("/r"); s != nil && closedBefore[s] {
+						seenBad = fmt.Sprintf("Get returned a stream that was already closed (status %d) when Get was called", s.VerifStatus())
 					}
 				}
 			})
